@@ -27,6 +27,26 @@ def select(pid, m):
     return {"functions": fns, "modules": mods, "clauses": clauses, "undecided_functions": und}
 
 
+def cex_search(pid, seed):
+    """-> text of a failing history found on the real code, or None"""
+    if os.environ.get("PQ_NO_CEX"):
+        return None
+    repo = os.environ.get("PQ_REPO", "/repo")
+    work = os.path.join(VERIF, "gen", "_cex")
+    env = dict(os.environ, PQ_CEX_WORK=work, PQ_CEX_TARGET=os.path.join(work, "target"), PQ_CEX_TIMEOUT="45")
+    try:
+        r = subprocess.run([os.path.join(VERIF, "harness/cex/run.sh"), repo, "search", pid, str(seed + 7), "8000", "120"],
+                           capture_output=True, text=True, env=env, timeout=400)
+    except Exception:
+        return None
+    out = r.stdout
+    if r.returncode == 1 and "FAILING HISTORY" in out:
+        return out[out.index("FAILING HISTORY"):]
+    if r.returncode not in (0, 1, 124) and "aborted with status" in out:
+        return out[-1500:]
+    return None
+
+
 def known_findings():
     path = os.path.join(VERIF, "known_findings.txt")
     out = []
@@ -192,8 +212,15 @@ def report(pid, tier, seed, m, sel, res, findings, cmd, t0, outdir):
                 if fn:
                     fh.write("    source: /repo/%s:%d\n" % (fn["file"], fn["line"]))
                 fh.write("    verifier output:\n" + "".join("      " + l + "\n" for l in f["rendered"].split("\n")))
-            fh.write("\ncounterexample: none (Verus yields no model); no-failing-input-found\n")
-        lines.append("VIOLATION property=%s replay=%s no-failing-input-found" % (pid, rpath))
+            # Verus yields no model: search for a concrete failing history on the real code (model-based random
+            # histories, harness/cex); only reached after a failed obligation, never on a passing tree
+            cex = cex_search(pid, seed)
+            if cex:
+                fh.write("\nfailing input found by harness/cex on the real code (debug build of the crate at %s):\n%s\n" % (os.environ.get("PQ_REPO", "/repo"), cex))
+            else:
+                fh.write("\ncounterexample: none (Verus yields no model; %s); no-failing-input-found\n"
+                         % ("the random-history search on the real code found nothing within its budget" if os.environ.get("PQ_NO_CEX") is None else "search disabled"))
+        lines.append("VIOLATION property=%s replay=%s%s" % (pid, rpath, "" if cex else " no-failing-input-found"))
         for f in new_viol[:40]:
             lines.append("  failed obligation: %s in %s: %s" % (f["clause"] or f.get("cost_id") or "built-in", f["fn"], f["msg"]))
     elif undecided or sel.get("undecided_functions") or masked:
